@@ -16,7 +16,10 @@ def _hist(prop, audits, profile, rule, nontrivial, deciding, anchors, quick, tho
         "engine": "history",
         "audits": audits,
         "profile": profile,
-        "rule": rule,
+        "rule": rule + " Scale cases, one each per run and audited once at their end: an index of 300+ sites (ids past 256), 1100+ siblings "
+                       "submitted in sorted order, and a big index (2300+ pages in one webentity so that the 1000/2000/5000 yield thresholds are "
+                       "crossed unforced, hubs with 2000+ inbound / outbound links, a 300-fold link, a creation request with 1100 prefixes)"
+                       + ("; 66000+ webentities created one by one (ids past two bytes)." if quick.get("ids") else "."),
         "nontrivial": nontrivial,
         "deciding_counters": deciding,
         "anchors": anchors,
@@ -219,7 +222,8 @@ PROPS["C09"] = _paging(
     "given order: sorted(pages resolving to that prefix)]; in half of the runs 0-3 pages are inserted between successive calls "
     "(before/at/after the cursor, under other prefixes, re-submissions, with automatic creation) and the trace is checked for "
     "repeats, skipped throughout-pages and alien pages; token codec round-trips exhaustively for paths up to the stated length; "
-    "one isolated deep-chain probe. Non-trivial: >= 1 webentity and >= 4 pages; distinct = distinct store bytes.",
+    "one isolated deep-chain probe; a share of the cases are a webentity with 11-70 prefixes and an index of 260-300 webentities "
+    "of which those with the highest ids are paged through. Non-trivial: >= 1 webentity and >= 4 pages; distinct = distinct store bytes.",
     lambda f: f["we"] >= 1 and f["pages"] >= 4,
     ["C09_paginations", "C09_multi_call_paginations", "C09_resumes", "C09_codec_roundtrips"],
     ["LRUTrie.webentity_inorder_iter", "Traph.paginate_webentity_pages", "build_pagination_token", "parse_pagination_token"],
@@ -236,7 +240,8 @@ PROPS["C10"] = _paging(
     "(prefixes shuffled) x 3 switch settings x source counts {1,2,3,n,n+1} (every count for exhaustive shapes) is paged through "
     "feeding every token back; every issued token must be resumable, each non-final answer must cover exactly the requested "
     "number of sources, counts must match contents and the concatenation must equal get_webentity_pagelinks as a multiset of "
-    "(source,target,weight). One isolated deep-chain probe. Non-trivial: >= 1 webentity and >= 2 link pairs; distinct = store bytes.",
+    "(source,target,weight). One isolated deep-chain probe; a share of the cases are a webentity with 11-70 prefixes and an index "
+    "of 260-300 webentities of which those with the highest ids are paged through. Non-trivial: >= 1 webentity and >= 2 link pairs; distinct = store bytes.",
     lambda f: f["we"] >= 1 and f["pairs"] >= 2,
     ["C10_paginations", "C10_multi_call_paginations", "C10_resumes"],
     ["LRUTrie.webentity_inorder_iter", "Traph.paginate_webentity_pagelinks", "Traph.get_webentity_pagelinks_iter"],
@@ -276,7 +281,8 @@ PROPS["C11"] = _life(
     "construction) and on a never-closed index B; after every request the write reports (incl. issued ids) must be equal and "
     "every k-th request the digests of the whole read-only battery, A is also audited against the model, and both files must be "
     "whole blocks after close. clear: after a prefix history, clear(default', rules') then H is compared the same way with a "
-    "fresh index(default', rules') then H, on file and memory indexes. Non-trivial: >= 6 pages and >= 1 webentity at the end; "
+    "fresh index(default', rules') then H, on file and memory indexes. One big history per mode (2300+ pages in one webentity, "
+    "hubs with 2000+ links queried before the clear, another big history over the same blocks after it). Non-trivial: >= 6 pages and >= 1 webentity at the end; "
     "distinct = (mode, final store bytes).",
     lambda f: f["pages"] >= 6 and f["we"] >= 1,
     ["battery_comparisons", "reports_compared", "C11_reopens", "C11_clears"],
@@ -292,7 +298,7 @@ PROPS["C15"] = _life(
     "Traph(folder=None) and on a fresh folder: every write report, every exception and every k-th request the digests of the "
     "whole read-only battery must be equal, the final bytes of both stores must be identical, and every block read through "
     "FileStorage.map() must equal the block read through the storage. Non-trivial: >= 6 pages and >= 1 stem longer than one "
-    "block or >= 1 construction-time rule; distinct = final store bytes.",
+    "block or >= 1 construction-time rule; distinct = final store bytes. One big lockstep history (4300+ pages, 5000+ trie blocks).",
     lambda f: f["pages"] >= 6,
     ["battery_comparisons", "reports_compared", "C15_store_comparisons", "C15_mmap_blocks_compared"],
     ["MemoryStorage.read", "MemoryStorage.write", "FileStorage.read", "MemMapStorage.read", "FileStorage.map"],
@@ -309,7 +315,9 @@ PROPS["C14"] = {
             "and absent LRUs, unknown webentity ids, prefixes not in the index, invalid switch combinations) runs inside the read-only "
             "window monitor: zero write events at the storage boundary (file proxy / MemoryStorage wrapper), checked after every "
             "iterator step, and unchanged SHA-256 of both stores around every call. Non-trivial: state with >= 6 pages, >= 1 "
-            "webentity, >= 1 link; distinct = final store bytes.",
+            "webentity, >= 1 link; distinct = final store bytes. Also: the final state reopened the way the repository's inspection scripts do "
+            "(debug=True, no rules) and with part of its rules; torn states; two scale states (2300+ pages in one webentity; a page "
+            "whose link chains hold 66000 entries each) under the reduced battery.",
     "nontrivial": lambda f: f["pages"] >= 6 and f["we"] >= 1 and f["links"] >= 1,
     "deciding_counters": ["C14_windows", "C14_calls_succeeded", "C14_calls_refused_with_library_error", "C14_iterator_steps"],
     "anchors": ["LRUTrie.follow_lru", "LRUTrie.lru_node", "Traph.get_potential_prefix", "LRUTrieNode.write", "LRUTrie.add_lru"],
@@ -331,7 +339,9 @@ PROPS["C18"] = {
             "must be refused with TraphException or answer the reduced battery without any foreign exception and report only pages "
             "(crawled only if crawled at the end) and per-direction link weights <= those of the complete history. The "
             "reconstruction is validated by re-running the history with a crash injected at a random write and comparing the files "
-            "left on disk byte for byte. Non-trivial: history with >= 3 pages; distinct = final file bytes.",
+            "left on disk byte for byte. The complete files and one mid-history cut are also examined with either store missing. One scale "
+            "history (a crawl batch whose source has 1100+ targets, 13000+ write events): every shard examines its own random sample of "
+            "block-granular cuts. Non-trivial: history with >= 3 pages; distinct = final file bytes.",
     "nontrivial": lambda f: f["pages"] >= 3,
     "deciding_counters": ["C18_cuts", "C18_cuts_opened", "C18_cuts_refused", "C18_cuts_consistent", "C18_reconstructions_validated"],
     "anchors": ["Traph.__init__", "FileStorage.check_for_corruption", "LRUTrieNode.write", "LinkStore.add_links", "LRUTrie.add_lru"],
@@ -354,7 +364,10 @@ PROPS["C16"] = {
             "every step the raw bytes are decoded to get the qualifying items of the running query; oracles: no request raises, "
             "final pages/crawled marks/link multigraph = batches applied sequentially (model), S1-S7 incl. inbound/outbound "
             "symmetry, query answer within [qualified at every moment, qualified at some moment]. A schedule is non-trivial when it "
-            "has >= 4 steps and actually alternates between >= 2 requests; distinct = distinct (program, schedule).",
+            "has >= 4 steps and actually alternates between >= 2 requests; distinct = distinct (program, schedule). One scale program (a batch "
+            "in which 1100+ sources cite one page and one page has 1100+ targets, with two small batches citing / crawling those pages): the "
+            "small batches are inserted whole at every (quick: every other) yield point of the big one, plus randomly delayed step-wise "
+            "interleavings; final-state and structural oracles only.",
     "nontrivial": None,
     "deciding_counters": ["C16_schedules", "C16_final_state_checks", "C16_query_brackets", "C16_query_windows_with_state_change"],
     "anchors": ["Traph.index_batch_crawl_iter", "Traph.add_webentity_creation_rule_iter", "TraphIteratorState.should_yield",
